@@ -644,6 +644,10 @@ fn run_file(path: &str, mode: Mode) {
                 writeln!(w, "{} XPANIC {}", id, msg.replace('\n', " ")).unwrap()
             }
         }
+        if mode == Mode::Guard {
+            // a later case may kill the process: nothing observed so far may be lost
+            w.flush().unwrap();
+        }
     }
     w.flush().unwrap();
 }
